@@ -126,7 +126,7 @@ func newWWorld(sh *wShared, dir string) *wWorld {
 		w.ids[k.addr] = id
 	}
 	os.Remove(w.path)
-	os.Remove(w.path + "~")
+	os.RemoveAll(w.path + "~")
 	if sh.in.Scrypt != nil {
 		// an existing wallet file with its own scrypt settings and no accounts
 		wd := NewWalletData()
@@ -193,6 +193,11 @@ func (w *wWorld) apply(a wAct) (res string, errs string) {
 		sch, err := s.GetScheme(a.Scheme)
 		vhMust(err)
 		return er(w.cli.ChangeSigScheme(w.addr(a.Id), sch))
+	case "SetFault":
+		// save() writes <wallet>~ and renames it: a directory of that name makes every save fail
+		return er(os.Mkdir(w.path+"~", 0755))
+	case "ClearFault":
+		return er(os.Remove(w.path + "~"))
 	case "Reload":
 		cli, err := NewClientImpl(w.path)
 		if err != nil {
